@@ -41,6 +41,10 @@
 (* operands of one node (sum, product, call, quotient, power; also nested  *)
 (* in a denominator).  The identity negative controls check the model for  *)
 (* every layout.                                                           *)
+(* Round 4: pre-existing wrappers carry repeated subterms at every depth    *)
+(* below the wrapper (WrapperTemplates under Puts, WrapDepthRoots,          *)
+(* WrapHoleRoots); negative controls WrapperCountStopsAtChild /            *)
+(* WrapperCountSkipsChild cut the use counter's descent below a wrapper.    *)
 (* Mode "rand": -simulate grows random deeper lists.                       *)
 (***************************************************************************)
 EXTENDS C12_CSE, C12_Env, Json
@@ -158,6 +162,13 @@ KindRoots == { L(<< N("Product", << X, vc >>), N("Sum", << X, KI(2) >>) >>) : X 
 (* condition).                                                             *)
 (***************************************************************************)
 oo == V("o")  mm == V("m")
+\* round 4: pre-existing wrappers whose child is itself built from operations - Puts puts the
+\* repeated operation at EVERY depth below the wrapper (the direct child, an operand of the
+\* child, deeper, the function position of a call inside), without / with scope / with prefix
+WrapperTemplates ==
+  { CSE0(N("Product", << va, vc >>)),
+    CSE(B("Quotient", N("Sum", << vc, Call(gg, << va >>) >>), vc), "", "pymbolic_global"),
+    CSE(B("Power", Call(ff, << va, vc >>), KI(2)), "w", "pymbolic_expr") }
 HostTemplates ==
   { Call(ff, << va, vc >>), Call(gg, << vc >>), Call(ff, << >>), Call(ff, << va, KI(2), vc >>),
     Call(Call(gg, << va >>), << vc >>),             \* a call in the function position of a call
@@ -174,8 +185,10 @@ HostTemplates ==
     N("Sum", << va, vc >>), N("Product", << vc, va >>), B("Quotient", va, vc),
     B("FloorDiv", va, vc), B("Remainder", va, vc), B("Power", va, KI(2)),
     CSE0(va), CSE(va, "w", "pymbolic_expr") }
+  \cup WrapperTemplates
 HostTemplatesNeg == { Call(ff, << va, vc >>), CallKw(ff, << va >>, << KwArg("k1", vc) >>),
-                      B("Sub", tt, KI(1)), IfE(Cmp(va, "<", vc), vb, vc), B("Quotient", va, vc) }
+                      B("Sub", tt, KI(1)), IfE(Cmp(va, "<", vc), vb, vc), B("Quotient", va, vc),
+                      CSE0(N("Product", << va, vc >>)) }
 XH == HoleT("X")  FH == HoleT("F")
 RECURSIVE Puts(_)
 Puts(t) ==
@@ -209,8 +222,40 @@ PosHoleRoots ==
            L(<< B("Sub", tt, A), Bh >>), L(<< Call(IfE(Cmp(A, "<", vc), ff, gg), << va >>), Bh >>) }
     ELSE { L(<< Fill1(s, M), Bh >>) : s \in UNION { Puts(t) : t \in HostTemplates } }
          \cup { L(<< Call(IfE(Cmp(M, "<", vc), ff, gg), << Cc >>), M >>) }
+(***************************************************************************)
+(* Round 4: inputs that ALREADY contain wrappers carry the repeated subterm *)
+(* at every depth below the wrapper.  PosRoots over WrapperTemplates gives  *)
+(* "wrapper host + bare repeat after it" and "two pre-existing wrappers of  *)
+(* the same shape with other siblings"; WrapDepthRoots adds, for wrapper    *)
+(* contexts D with the repeat X at depth 2 / 3 / as the parameter of a call *)
+(* (no scope / scope given), the other placements of the further            *)
+(* occurrence(s): outside BEFORE the wrapper, outside in the SAME           *)
+(* expression, inside ANOTHER pre-existing wrapper of another shape, twice  *)
+(* inside the SAME wrapper and nowhere else, below NESTED pre-existing      *)
+(* wrappers, as a commuted twin, and twice outside (the use count then is   *)
+(* right whatever happens below the wrapper - the wrapper still must share).*)
+(* WrapHoleRoots: whatever the pools hold (wrappers included) as an operand *)
+(* of a pre-existing wrapper's child next to a pool element.                *)
+(***************************************************************************)
+WrapCtx(X) == << CSE0(N("Product", << X, vc >>)),
+                 CSE0(B("Quotient", KI(2), N("Sum", << vc, X >>))),
+                 CSE(Call(gg, << X >>), "", "pymbolic_global") >>
+WXPool == IF Tier = "thorough" THEN { S, C1, P, Q, Pw, C2, B("Remainder", va, vb) } ELSE { S, C1 }
+WrapDepthLists(X) ==
+    LET D == WrapCtx(X) IN
+    UNION { { L(<< N("Sum", << X, KI(1) >>), D[i] >>),                      \* outside, before
+              L(<< N("Product", << D[i], X >>) >>),                         \* outside, same expression
+              L(<< D[i], D[(i % Len(D)) + 1] >>),                           \* another wrapper, other shape
+              L(<< CSE0(N("Sum", << D[i], X >>)) >>),                       \* nested pre-existing wrappers
+              L(<< D[i], N("Sum", << Twin(X), KI(1) >>) >>),                \* (commuted) twin after
+              L(<< D[i], N("Sum", << X, KI(1) >>), N("Product", << KI(2), X >>) >>) } : i \in 1..Len(D) }
+    \cup { L(<< CSE0(N("Sum", << N("Product", << X, vc >>), B("Quotient", X, vb) >>)) >>),  \* same wrapper only
+           L(<< CSE(N("Product", << X, vc >>), "n", EvalScope), N("Sum", << X, KI(1) >>) >>) }  \* prefixed
+WrapDepthRoots == UNION { WrapDepthLists(X) : X \in WXPool }
+WrapHoleRoots == { L(<< CSE0(N("Product", << A, vc >>)), Bh >>) }
 TagRoots == IF Tier = "neg" THEN TagRootsNeg \cup PosRootsNeg
             ELSE KindRoots \cup SameNodeRoots \cup PosRoots(HostTemplates) \cup PosHoleRoots
+                 \cup WrapDepthRoots \cup WrapHoleRoots
                  \cup (IF Tier = "quick" THEN TagRootsQuick ELSE TagRootsThorough)
 
 \* ---- the helper cells -----------------------------------------------------
